@@ -39,10 +39,11 @@ theorem typed_no_panic (env : Env) (s : Schema) (bs : Bytes) : deTypedTop env s 
     | (rename_i h; exact absurd h this)
 
 /-- **Progress.** A successful typed parse consumes at least one byte (so the loops terminate, and a
-    stream of typed values over `n` bytes yields at most `n` items). -/
+    stream of typed values over `n` bytes yields at most `n` items), and the position it returns is
+    the start position advanced by exactly what was consumed. -/
 theorem typed_progress (env : Env) (s : Schema) (f : Nat) (hf : Schema.size s ≤ f) (t : Nat) (rest : Bytes) (pos : Nat)
     (v : TVal) (rest' : Bytes) (pos' : Nat) (h : deTyped env f t s rest pos = .ok v rest' pos') :
-    rest'.length < rest.length :=
+    rest'.length < rest.length ∧ pos' + rest'.length = pos + rest.length :=
   (deTyped_good env f s hf t rest pos).2 v rest' pos' h
 
 /-- Bool-valued tests on outcomes (for kernel-evaluated examples) -/
